@@ -112,7 +112,10 @@ LEVEL_NOTE = ("Theorems are about exact real arithmetic; libm and rounding are n
               "(the program stops iterating at 0.0005 mm positional misclosure), 1e-4 m (xy) / 3e-4 m (z) when from_dh/to_dh "
               "are present (the program refines the from_dh/to_dh reductions to 0.001 mm / 0.1 cc, at the approximate and, since "
               "a2adf726, at the adjusted coordinates: residuals of such observations get +1e-6 m / +1e-5 gon); tol-abs is raised with the "
-              "perturbation so that the documented gross-error gate is not what is being tested.")
+              "perturbation so that the documented gross-error gate is not what is being tested. A perturbation that is large relative to "
+              "the sight lengths (5 m on 24 m sights, a zenith angle with to_dh 5.5 m) can exhaust the 5 linearisation iterations "
+              "gama-local allows and end 0.1 m off: recorded in corpus/C06/pending/traverse-perturbed5-bound-reached.*, outside the "
+              "property's 'perturbed' clause (small perturbations), not counted as a violation.")
 TECHNIQUE = ("Lean 4 proof (closed-form geometry over R, list induction) + differential correspondence at Float "
              "+ end-to-end property search on gama-local with shrinking")
 TRUSTED = ["harness/c06_cogo.cpp re-declares access (#define private public) for acord2.h / acordpolar.h / acordazimuth.h / "
@@ -910,7 +913,9 @@ def inserted_before_model(drv, line, impl, model):
     two answers differ is published by the implementation while the model's FIRST `approxy_.calculation()` (limit 0.15)
     does not solve it: computational_loop then calls solve_insertion before the model - which goes on to the turns with
     the temporary stand-point and the relaxed limit - publishes its own value (seen on inconsistent data with an inner
-    angle between the two limits)"""
+    angle between the two limits).  Variant (thorough run 3): solve_insertion publishes the SAME values as the model's
+    later turns (agreement to tolerance, different bits), `missing_xy_` is then empty and execute() returns before the turn
+    in which the model sets a further orientation and computes a by-product point that was never in `missing_xy_`"""
     if len(impl) != len(model):
         return False
     t = line.split()
@@ -921,9 +926,16 @@ def inserted_before_model(drv, line, impl, model):
         ta, tb = a.split(), b.split()
         if ta[:1] != tb[:1]:
             return False
-        if ta[0] != "pt" or lines_equal(a, b, rtol=1e-9, atol=1e-7):
+        if ta[0] != "pt":
             continue
         pid = ta[1]
+        if lines_equal(a, b, rtol=1e-9, atol=1e-7):
+            if a != b and ta[2] == "1" and pid in pf and pf[pid][2] != "1" and pf[pid][7] == "1":
+                # the SAME value to tolerance but not bit for bit, for a point that was missing and that the model's first
+                # calculation does not solve: solve_insertion (another computation path) published it before the model's
+                # relaxed turns did (thorough run 3, corpus/C06/acord-intersection-insertion-same-value.txt)
+                seen = True
+            continue
         if ta[2] != "1" and tb[2] == "1" and ta[7] == "0" and tb[7] == "0" and ta[5:7] == tb[5:7]:
             continue      # model only, never missing: a by-product of a turn the implementation did not get to any more
         if ta[2] != "1" or pid not in pf or pf[pid][2] == "1":
